@@ -6,7 +6,7 @@ for the index builders the shards of the store hold).
 from engine/index/tsi/index_builder.go on every run; the machine is `OG.C14.Ix` (`Index.lean`),
 tied to the code by the `x` stream of the correspondence run.
 -/
-import OG.C14.IndexInvF
+import OG.C14.IndexRun
 
 namespace OG.C14.Ix
 open OG.C14
@@ -159,5 +159,176 @@ theorem index_loss_recorded {σ : St} (op : Op) {x : XIndex} (hx : x ∈ σ.idxs
         exact (hgone x hx rfl).elim
     · exact (hgone x hx rfl).elim
   | cache => exact (keep ⟨x, by simp only [step]; split <;> exact hx, rfl⟩).elim
+
+/-! ## 3. one run: raising the duration before the deletion keeps the index -/
+
+/-- the builders after both sides of a refresh: same ids, same ends, and the policy's duration
+on every builder whose index the catalogue lists. -/
+theorem refreshed_builders {σ : St} {x2 : XIndex}
+    (h : x2 ∈ ((σ.idxs.map fun x => { x with fresh := false }).map
+        (updIndexS σ.metaDur (sInfos σ.cs σ.metaDur) σ.shards)).map (updIndexI (iInfos σ.ci σ.metaDur))) :
+    ∃ x0 ∈ σ.idxs, x2.iid = x0.iid ∧ x2.b.endTime = x0.b.endTime ∧
+      ((∃ c ∈ σ.ci, c.iid = x0.iid) → x2.b.duration = σ.metaDur) := by
+  simp only [List.mem_map] at h
+  obtain ⟨x1, ⟨xr, ⟨x0, h0, rfl⟩, rfl⟩, rfl⟩ := h
+  refine ⟨x0, h0, ?_, ?_, ?_⟩
+  · rw [updIndexI_iid, updIndexS_iid]
+  · rw [updIndexI_endTime, updIndexS_endTime]
+  · rintro ⟨c, hc, hi⟩
+    unfold updIndexI
+    split
+    · rename_i i hfi
+      have := mem_iInfos (List.mem_of_find?_eq_some hfi)
+      show (ixSetDuration _ i.dur).duration = σ.metaDur
+      rw [ixSetDuration_duration]
+      exact this
+    · rename_i hnone
+      exfalso
+      have hmem : (⟨c.iid, c.igid, c.startT, c.endT, σ.metaDur⟩ : IInfo) ∈ iInfos σ.ci σ.metaDur :=
+        List.mem_map_of_mem (f := fun c => (⟨c.iid, c.igid, c.startT, c.endT, σ.metaDur⟩ : IInfo)) hc
+      have := List.find?_eq_none.mp hnone _ hmem
+      simp [hi, updIndexS_iid] at this
+
+/-- **raising_before_delete_keeps**: the store holds builders for index `i`, the catalogue lists
+the index unmarked, and the policy is altered to a duration `d` that is unlimited or reaches at
+least to now from the index's end (`d = 0 ∨ clock ≤ end + d`) before a run whose two refresh
+calls reach meta.  Then after that run — whatever it does to shards and other indexes, whatever
+fails — the store still holds a builder for `i` and the catalogue still lists it unmarked. -/
+theorem raising_before_delete_keeps (σ : St) (hp : σ.phase = .idle) (i : Nat) (d : Int)
+    (hx : ∃ x ∈ σ.idxs, x.iid = i)
+    (hb : ∀ x ∈ σ.idxs, x.iid = i → d = 0 ∨ σ.clock ≤ x.b.endTime + d)
+    (hc : ∃ c ∈ σ.ci, c.iid = i ∧ c.marked = false)
+    (sc : Script) (h1 : sc.okS = true) (h2 : sc.okI = true) (h3 : sc.alter1 = none) (h4 : sc.alter2 = none) :
+    (∃ x ∈ (run sc (step σ (.alter d))).idxs, x.iid = i) ∧
+    (∃ c ∈ (run sc (step σ (.alter d))).ci, c.iid = i ∧ c.marked = false) := by
+  -- the state after the alteration
+  have tp : (step σ (.alter d)).phase = .idle := hp
+  have tm : (step σ (.alter d)).metaDur = d := rfl
+  have ti : (step σ (.alter d)).idxs = σ.idxs := rfl
+  have tc : (step σ (.alter d)).ci = σ.ci := rfl
+  have tk : (step σ (.alter d)).clock = σ.clock := rfl
+  generalize step σ (.alter d) = τ at *
+  -- head of the run
+  have hhead : runHead sc = [.refreshS true, .refreshI true, .collectS] := by
+    simp [runHead, h1, h2, h3, h4, optAlter]
+  obtain ⟨e1, e2, e3, e4, _, e6⟩ := head_fields τ tp
+  simp only [run, hhead]
+  generalize hσ1 : steps τ [.refreshS true, .refreshI true, .collectS] = σ1 at *
+  -- the shard loop
+  obtain ⟨f1, f2, f3, f4, _⟩ := procSAll_fields sc.outS σ1.sq.length σ1
+  have f6 := procSAll_phase sc.outS σ1.sq.length σ1 e6 (Nat.le_refl _)
+  generalize hσ2 : procSAll sc.outS σ1.sq.length σ1 = σ2 at *
+  -- facts about the builders of index i at `ExpiredIndexes`
+  have K1 : ∃ x ∈ σ2.idxs, x.iid = i := by
+    obtain ⟨x, hxm, hxi⟩ := hx
+    rw [f1, e1, ti]
+    refine ⟨_, List.mem_map_of_mem (List.mem_map_of_mem (List.mem_map_of_mem hxm)), ?_⟩
+    rw [updIndexI_iid, updIndexS_iid]
+    exact hxi
+  have K2 : ∀ x ∈ σ2.idxs, x.iid = i → ixExpired σ2.clock x.b = false := by
+    intro x2 hx2 hi2
+    rw [f1, e1] at hx2
+    obtain ⟨x0, h0, g1, g2, g3⟩ := refreshed_builders hx2
+    rw [ti] at h0
+    have hd : x2.b.duration = d := by
+      rw [← tm]
+      apply g3
+      obtain ⟨c, hcm, hci, _⟩ := hc
+      exact ⟨c, tc ▸ hcm, by rw [hci, ← g1, hi2]⟩
+    cases he : ixExpired σ2.clock x2.b
+    · rfl
+    · exfalso
+      obtain ⟨n1, n2⟩ := (index_expired_iff _ _).mp he
+      rw [hd] at n1 n2
+      rw [f4, e4, tk, g2] at n2
+      rcases hb x0 h0 (by rw [← g1, hi2]) with h | h
+      · exact n1 h
+      · omega
+  have K3 : ∀ n ∈ σ2.nilI, n.iid ≠ i := by
+    intro n hn hni
+    rw [f3, e2] at hn
+    unfold nilIInfos at hn
+    obtain ⟨_, hf⟩ := List.mem_filter.mp hn
+    obtain ⟨x, hxm, hxi⟩ := K1
+    rw [f1, e1] at hxm
+    have : (List.any ((τ.idxs.map fun x => { x with fresh := false }).map
+        (updIndexS τ.metaDur (sInfos τ.cs τ.metaDur) τ.shards)) fun x => x.iid == n.iid) = true := by
+      obtain ⟨x1, hx1, rfl⟩ := List.mem_map.mp hxm
+      rw [updIndexI_iid] at hxi
+      exact List.any_eq_true.mpr ⟨x1, hx1, by rw [hxi, hni]; simp⟩
+    rw [this] at hf
+    exact absurd hf (by simp)
+  -- ExpiredIndexes does not report i; the index loop and the cache loop keep it
+  have hkeep : Keep i (step σ2 .collectI) := by
+    simp only [step, f6]
+    refine ⟨K1, ?_, ?_⟩
+    · obtain ⟨c, hcm, hci, hcm'⟩ := hc
+      exact ⟨c, by rw [f2, e3, tc]; exact hcm, hci, hcm'⟩
+    · intro q hq hqi
+      rcases mem_expiredI (mem_sortI.mp hq) with ⟨x, hxm, he, rfl⟩ | ⟨n, hn, _, rfl⟩
+      · rw [K2 x hxm hqi] at he
+        exact absurd he (by simp)
+      · exact K3 n hn hqi
+  have hfin := (Keep.procIAll sc.outI (step σ2 .collectI).iq.length _ hkeep).cache
+  exact ⟨hfin.1, hfin.2.1⟩
+
+/-- **unlimited policy, one run**: after `ALTER … DURATION INF` a run keeps every index the
+catalogue lists, whatever the builders held before. -/
+theorem unlimited_run_keeps_index (σ : St) (hp : σ.phase = .idle) (i : Nat)
+    (hx : ∃ x ∈ σ.idxs, x.iid = i) (hc : ∃ c ∈ σ.ci, c.iid = i ∧ c.marked = false)
+    (sc : Script) (h1 : sc.okS = true) (h2 : sc.okI = true) (h3 : sc.alter1 = none) (h4 : sc.alter2 = none) :
+    (∃ x ∈ (run sc (step σ (.alter 0))).idxs, x.iid = i) ∧
+    (∃ c ∈ (run sc (step σ (.alter 0))).ci, c.iid = i ∧ c.marked = false) :=
+  raising_before_delete_keeps σ hp i 0 hx (fun _ _ _ => Or.inl rfl) hc sc h1 h2 h3 h4
+
+/-! ## 4. non-vacuity: a concrete catalogue and history -/
+
+namespace Ex
+
+/-- two shard groups (ends 100 and 200) on one index group [0, 200), policy 50. -/
+def cs : List CSh := [⟨1, 1, 11, 100, false, false, false⟩, ⟨3, 2, 11, 200, false, false, false⟩]
+def ci : List CIx := [⟨11, 1, 0, 200, false, false, false⟩]
+
+example : AlignedCat cs ci := by simp [AlignedCat, cs, ci]
+
+/-- both shards written, the clock passes end + duration of the index group, a run without
+failures: the shards go, then the index (with no user left); the log has its record. -/
+def ops1 : List Op :=
+  [.load 1, .load 3, .tick 260, .refreshS true, .refreshI true, .collectS, .procS .good, .procS .good,
+   .collectI, .procI .good, .cache]
+
+example : ((steps (St.init 0 50 cs ci) ops1).idxs, (steps (St.init 0 50 cs ci) ops1).shards.length,
+    (steps (St.init 0 50 cs ci) ops1).ci) = ([], 0, []) := by decide
+
+example : ((steps (St.init 0 50 cs ci) ops1).log.filter fun e => e.kind == .delIndex).map (fun e => (e.id, e.d, e.now, e.fresh, e.users)) =
+    [(11, 50, 260, true, [])] := by rfl
+
+/-- the deletion of shard 3 fails (it stays, expired): the index goes with a user, and the
+user is expired under the duration that decided — the situation the theorem allows. -/
+def ops2 : List Op :=
+  [.load 1, .load 3, .tick 260, .refreshS true, .refreshI true, .collectS, .procS .good, .procS ⟨true, false, true⟩,
+   .collectI, .procI .good, .cache]
+
+example : ((steps (St.init 0 50 cs ci) ops2).log.filter fun e => e.kind == .delIndex).map (fun e => (e.id, e.d, e.now, e.users)) =
+    [(11, 50, 260, [(3, 200)])] := by rfl
+
+/-- the same clock, but the policy was made unlimited before the run: nothing is reported,
+nothing goes (hypotheses of `raising_before_delete_keeps` with `d = 0`). -/
+def σ0 : St := steps (St.init 0 50 cs ci) [.load 1, .load 3, .tick 260]
+
+example : σ0.phase = .idle ∧ (∃ x ∈ σ0.idxs, x.iid = 11) ∧ (∃ c ∈ σ0.ci, c.iid = 11 ∧ c.marked = false) := by decide
+
+example : (run .good (step σ0 (.alter 0))).idxs.map (fun x => (x.iid, x.b.duration)) = [(11, 0)] ∧
+    (run .good (step σ0 (.alter 0))).shards.length = 2 := by decide
+
+/-- … and without the alteration the same run deletes all of it. -/
+example : (run .good σ0).idxs = [] ∧ (run .good σ0).shards = [] := by decide
+
+/-- raised to a finite duration that reaches now from the index's end (200 + 60 ≥ 260): the
+index and shard 3 stay, shard 1 (100 + 60 < 260) goes. -/
+example : (run .good (step σ0 (.alter 60))).idxs.map (fun x => (x.iid, x.b.duration)) = [(11, 60)] ∧
+    (run .good (step σ0 (.alter 60))).shards.map (·.sid) = [3] := by decide
+
+end Ex
 
 end OG.C14.Ix
